@@ -1,0 +1,36 @@
+//go:build verif
+
+// Contracts for package searcher: ConjunctionSearcher at protocol level (read by /verif/gocv;
+// comment-only effect with the verif tag off). Protocol level as in zz_verif_filter.go: results
+// strictly ascending, Advance lands at or after the target, every call on a child satisfies the
+// child's precondition (forward targets only), no panic, representation invariant preserved.
+
+package searcher
+
+// ---- representation ----
+// currs[k] is child k's current match (the child's cursor is exactly there), nil once child k is
+// exhausted. cowner / childIdx make "one slot per child, one slot per match" expressible without
+// pairwise quantifiers.
+//@ ghostfield search.DocumentMatch.cowner search.Searcher
+//@ uf childIdx(sr search.Searcher) int
+//@ spec conjShape(s *ConjunctionSearcher) bool = len(s.currs) == len(s.searchers) && forall(k, 0, len(s.searchers), s.searchers[k] != nil && childIdx(s.searchers[k]) == k)
+//@ spec slotOK(s *ConjunctionSearcher, k int) bool = implies(s.currs[k] != nil, s.searchers[k].started && !s.searchers[k].done && s.searchers[k].last == dmKey(s.currs[k]) && s.currs[k].cowner == s.searchers[k]) && \
+//@     implies(s.currs[k] == nil, s.searchers[k].done)
+// before the first call the children have not been touched
+//@ spec conjFresh(s *ConjunctionSearcher) bool = forall(k, 0, len(s.searchers), s.currs[k] == nil && !s.searchers[k].started && !s.searchers[k].done)
+// every child is beyond the last id this searcher returned
+//@ spec conjAhead(s *ConjunctionSearcher) bool = forall(k, 0, len(s.searchers), implies(s.started && s.currs[k] != nil, dmKey(s.currs[k]) > s.last))
+//@ spec conjInv(s *ConjunctionSearcher) bool = conjShape(s) && implies(!s.initialized, conjFresh(s) && !s.started) && implies(s.initialized, forall(k, 0, len(s.searchers), slotOK(s, k)) && conjAhead(s))
+
+// advanceChild(i, ID): child i is moved to its first match at or after ID; the other slots are
+// untouched. The target must be beyond the child's cursor.
+//@ func ConjunctionSearcher.advanceChild
+//@   props C08
+//@   mode int
+//@   requires s != nil && ctx != nil && ctx.DocumentMatchPool != nil && conjShape(s) && 0 <= i && i < len(s.searchers) && forall(k, 0, len(s.searchers), slotOK(s, k))
+//@   requires implies(s.currs[i] != nil, dmKey(s.currs[i]) < idKey(ID))
+//@   modifies s.currs[*], fields(search.DocumentMatch), search.DocumentMatch.cowner, search.DocumentMatchPool.avail, mem(*search.DocumentMatch), s.searchers[i].started, s.searchers[i].last, s.searchers[i].done
+//@   at call s.searchers[i].Advance#0 after: ghost result0.cowner = recv
+//@   ensures conjShape(s) && s.currs == old(s.currs) && s.searchers == old(s.searchers) && forall(k, 0, len(s.searchers), implies(k != i, s.currs[k] == old(s.currs[k])))
+//@   ensures implies(err == nil, forall(k, 0, len(s.searchers), slotOK(s, k)) && implies(s.currs[i] != nil, dmKey(s.currs[i]) >= idKey(ID)))
+//@   ensures forall(k, 0, len(s.searchers), implies(k != i && s.currs[k] != nil, dmKey(s.currs[k]) == old(dmKey(s.currs[k]))))
